@@ -1,7 +1,7 @@
-\* non-vacuity self-test: the named deviation "zero-caller-matches" of the Impl model MUST be refuted (ImplAgrees)
+\* non-vacuity self-test: the named deviation "zero-caller-matches" of the Impl model MUST be refuted (invariant ImplAgrees)
 SPECIFICATION Spec
 CONSTANTS
-  Family = "zero"
+  Family = "small"
   Deviation = "zero-caller-matches"
   MaxLinks = 2
 INVARIANTS ImplAgrees
